@@ -147,7 +147,7 @@ func checkList(t *testing.T, c ListCase) (v harness.Verdict) {
 
 // List is the signed-log-list clause of C05.
 var List = harness.Define(harness.Opts{
-	Name: "loglist",
-	Rule: "generated log-list documents (0-2 operators, 0-2 logs each, unknown members; one in eight malformed) signed with SHA-256 by a pool key of any kind, 0-2 mutations (document bit flip, key swap / nil / value key, signature value mutations); loglist3.NewFromSignedJSON returns a list iff the reference accepts (RSA or ECDSA key) and the document parses, and the list equals NewFromJSON's. Non-trivial: a mutation or a key other than P-256",
+	Name:  "loglist",
+	Rule:  "generated log-list documents (0-2 operators, 0-2 logs each, unknown members; one in eight malformed) signed with SHA-256 by a pool key of any kind, 0-2 mutations (document bit flip, key swap / nil / value key, signature value mutations); loglist3.NewFromSignedJSON returns a list iff the reference accepts (RSA or ECDSA key) and the document parses, and the list equals NewFromJSON's. Non-trivial: a mutation or a key other than P-256",
 	Quick: 3000, Thorough: 12000,
 }, genList, checkList)
